@@ -307,12 +307,13 @@ def check_striped_load(ctx, N, outs, arrays, stride, what):
 
 
 def op_load_h5_as_striped(ctx, e, ops, N, poison):
+    import tables
     t = ctx.tape
     io = e['mpi'].io
     ra = e['ra']
     n_rows = N + t.draw(N + 2)
-    if t.flag(1, 6):
-        n_rows = max(n_rows, 10 + t.draw(3))         # cross the zero-padding boundary of the row names
+    if t.flag(1, 4):
+        n_rows = max(n_rows, 10 + t.draw(4))         # cross the padding boundary of the row names
     dim = t.draw(3)          # 0 => 1-D elements
     dt = t.choice(('float64', 'float32', 'int32', 'int64'))
     stride = 1 if t.flag(2, 3) else t.irange(2, 4)
@@ -325,13 +326,38 @@ def op_load_h5_as_striped(ctx, e, ops, N, poison):
         rows.append((np.arange(int(np.prod(shp))).reshape(shp) * 2 + 1000 * i + 1).astype(dt))
     if N > n_rows:
         raise Skip('fewer rows than ranks')
-    arr = ra.RaggedArray(np.concatenate(rows), lengths=lens)
     fn = os.path.join(ctx.scratch(), 'feat.h5')
-    ctx.sut(ra.save, fn, arr, compression_level=t.choice((0, 1, 9)))
-    ctx.fp('h5', N, tuple(lens), dim, dt, stride)
-    ctx.scenario.update(rows=n_rows, lengths=lens, stride=stride, dtype=dt, elem_dim=dim)
+    writer = t.draw(3)       # 0/1: the library's own ra.save; 2: a file written by another tool (any node names)
+    if writer < 2:
+        arr = ra.RaggedArray(np.concatenate(rows), lengths=lens)
+        ctx.sut(ra.save, fn, arr, compression_level=t.choice((0, 1, 9)))
+        order = list(range(n_rows))
+    else:
+        style = t.draw(3)
+        if style == 0:
+            names = ['arr_%d' % i for i in range(n_rows)]              # not zero padded
+        elif style == 1:
+            names = ['t%03d' % (7 * i % 1000) for i in range(n_rows)]
+        else:
+            names = ['k%s' % ''.join(chr(97 + t.draw(3)) for _ in range(2)) + str(i) for i in range(n_rows)]
+        with tables.open_file(fn, 'w') as h:
+            for nm, row in zip(names, rows):
+                h.create_array('/', nm, row)
+        # the serial definition: rows in the order the file lists its nodes (by name)
+        order = sorted(range(n_rows), key=lambda i: names[i])
+        ctx.hit('h5_foreign_node_names')
+        if order != list(range(n_rows)):
+            ctx.hit('h5_listing_order_differs_from_creation')
+    rows_listed = [rows[i] for i in order]
+    ctx.fp('h5', N, tuple(lens), dim, dt, stride, writer, tuple(order))
+    ctx.scenario.update(rows=n_rows, lengths=lens, stride=stride, dtype=dt, elem_dim=dim, writer=writer)
+    # serial definition, as the library itself loads the file in one process
+    full = ctx.sut(ra.load, fn)
+    if n_rows >= 2:
+        require(len(full) == n_rows and all(C.same(np.asarray(full[i]), rows_listed[i]) for i in range(n_rows)),
+                'serial_load_wrong', lambda: 'ra.load does not return the rows in listing order')
     outs = run_world(ctx, N, lambda r: io.load_h5_as_striped(fn, stride=stride), poison)
-    check_striped_load(ctx, N, outs, rows, stride, 'load_h5_as_striped')
+    check_striped_load(ctx, N, outs, rows_listed, stride, 'load_h5_as_striped')
 
 
 def op_load_trajectory_as_striped(ctx, e, ops, N, poison):
